@@ -425,6 +425,60 @@ func (e *Engine) DisciplineUnit(m *Monitor) *FnRun {
 	}
 	r.Sc.Declare("top0", SInt)
 	r.addOblNamed(shortName(m.Via)+"#discipline:"+m.Name, "discipline", goal, src, nil, via.Pos())
+	// counters that hand out fresh values: every access is atomic.AddInt64(&x.f, positive constant)
+	for _, ctr := range m.Counters {
+		parts := strings.Split(ctr, ".")
+		fname := parts[len(parts)-1]
+		var bad3 []string
+		for _, k := range keys {
+			fn := e.FnByName[k]
+			if pkgOf(fn) == nil || !strings.HasPrefix(pkgOf(fn).Path(), ModulePath) {
+				continue
+			}
+			for _, b := range fn.Blocks {
+				for _, in := range b.Instrs {
+					fa, ok := in.(*ssa.FieldAddr)
+					if !ok {
+						continue
+					}
+					pt, ok := fa.X.Type().Underlying().(*types.Pointer)
+					if !ok || typeKey(pt.Elem()) != shortPkgName(m.PkgPath)+"."+parts[0] {
+						continue
+					}
+					st := types.Unalias(pt.Elem()).Underlying().(*types.Struct)
+					if st.Field(fa.Field).Name() != fname {
+						continue
+					}
+					if al, ok := fa.X.(*ssa.Alloc); ok && al.Heap {
+						continue // initialisation of a fresh object
+					}
+					for _, ref := range *fa.Referrers() {
+						okUse := false
+						if call, isCall := ref.(*ssa.Call); isCall {
+							if cal := call.Call.StaticCallee(); cal != nil && cal.String() == "sync/atomic.AddInt64" && len(call.Call.Args) == 2 && call.Call.Args[0] == ssa.Value(fa) {
+								if cst, isC := call.Call.Args[1].(*ssa.Const); isC && cst.Value != nil && cst.Int64() > 0 {
+									okUse = true
+								}
+							}
+						}
+						if _, isDbg := ref.(*ssa.DebugRef); isDbg {
+							okUse = true
+						}
+						if !okUse {
+							bad3 = append(bad3, fmt.Sprintf("%s uses %s other than by atomic.AddInt64(&x.%s, positive constant) at %s", r.fnShort(fn), ctr, fname, r.pos(fa.Pos())))
+						}
+					}
+				}
+			}
+		}
+		g := True
+		s3 := "counter " + ctr + " is only ever advanced atomically by a positive constant (values drawn from it are pairwise distinct)"
+		if len(bad3) > 0 {
+			g = False
+			s3 += ": " + strings.Join(bad3, "; ")
+		}
+		r.addOblNamed(shortName(m.Via)+"#freshcounter:"+ctr, "discipline", g, s3, nil, via.Pos())
+	}
 	// close-only channels
 	for _, co := range m.CloseOnly {
 		parts := strings.Split(co, ".")
@@ -468,8 +522,46 @@ func (e *Engine) DisciplineUnit(m *Monitor) *FnRun {
 
 // havocAllHeap forgets the heap, except what a held monitor protects: while this unit holds the lock no other code
 // can change the protected state (lock discipline, non-reentrant mutex).
+// markEscaped: the value (a box address, or a closure capturing boxes) becomes reachable by other code.
+func (fr *Frame) markEscaped(v Val) {
+	if fr.ownBoxes == nil || v.T.S == "" {
+		return
+	}
+	if _, ok := fr.ownBoxes[v.T.S]; ok {
+		delete(fr.ownBoxes, v.T.S)
+		return
+	}
+	if ci, ok := fr.R.closures[v.T.S]; ok {
+		for _, b := range ci.bindings {
+			if b.T.S != "" {
+				delete(fr.ownBoxes, b.T.S)
+			}
+		}
+	}
+}
+
 func (fr *Frame) havocAllHeap() {
 	r := fr.R
+	// boxed locals whose address never left this frame cannot be written by the code being abstracted
+	for _, a := range fr.pendingArgs {
+		fr.markEscaped(a)
+	}
+	type kept struct {
+		l *Loc
+		v Term
+	}
+	var boxes []kept
+	for _, l := range fr.ownBoxes {
+		if fr.st.vol[l.Ref.S] {
+			continue
+		}
+		boxes = append(boxes, kept{l, fr.load(l)})
+	}
+	defer func() {
+		for _, k := range boxes {
+			fr.store(k.l, k.v)
+		}
+	}()
 	var keep map[string]Term
 	if r.monitor != nil && fr.st.held[r.monitor.Name] && !fr.noKeep {
 		keep = map[string]Term{}
@@ -503,4 +595,11 @@ func (fr *Frame) isCloseOnly(v ssa.Value) bool {
 		}
 	}
 	return false
+}
+
+func shortPkgName(path string) string {
+	if i := strings.LastIndex(path, "/"); i >= 0 {
+		return path[i+1:]
+	}
+	return path
 }
